@@ -114,6 +114,11 @@ def _validate(tree):
     ret = [n for n in ifs[0].body if isinstance(n, ast.Return)]
     if len(ret) != 1 or _call_name(ret[0].value) != "round" or len(ret[0].value.args) != 2:
         raise TranslateError("_validate_measurement: throughput result is not round(reci, d)")
+    if not (_is_name(ret[0].value.args[0]) and _is_name(fors[0].target, ret[0].value.args[0].id)
+            and _is_name(ifs[0].test.left.left, fors[0].target.id) and _is_name(ifs[0].test.comparators[1].left, fors[0].target.id)
+            and (fors[0].iter is lc or (_is_name(fors[0].iter) and any(
+                isinstance(s, ast.Assign) and _is_name(s.targets[0], fors[0].iter.id) and s.value is lc for s in tp.body)))):
+        raise TranslateError("_validate_measurement: the loop variable is not what is tested and rounded")
     digits = _const(ret[0].value.args[1], int)
     return dict(lt_hi=lt_hi, lt_lo=lt_lo, tp_lo=tp_lo, tp_hi=tp_hi, r_from=r_from, r_to=r_to, digits=digits)
 
